@@ -20,6 +20,20 @@ Theorem C05_no_escalation : forall c ops k t g x,
 Proof. exact no_escalation. Qed.
 Print Assumptions C05_no_escalation.
 
+(* AUTHORIZING AGAIN WITHIN A BROWSER SESSION (the operations of `run` include AuthorizeCookie: an authorization request
+   that carries the provider's session cookie of an earlier authorization - the provider keeps the earlier grant when the
+   request equals the stored one and makes a new grant otherwise; so C05_no_escalation above already ranges over these
+   histories).  Explicitly: after such a request - whatever the earlier authorization asked for, wider or narrower -
+   every token ever found in the grant that holds the new code (the code, what it is exchanged for, every refresh down
+   the chain) carries only scope values THIS request asked for and ITS client is allowed. *)
+Theorem C05_cookie_authorization_bounded : forall c pre prev u cl sc rd fresh s1 code scope post tc k t x,
+  step c (fst (run c init pre)) (AuthorizeCookie prev u cl sc rd fresh) = (s1, OAuthz code scope) ->
+  tget code s1 = Some tc ->
+  tget k (fst (run c s1 post)) = Some t -> t_grant t = t_grant tc -> In x (t_scope t) ->
+  In x sc /\ In x (c_allowed c cl).
+Proof. exact cookie_authorization_bounded. Qed.
+Print Assumptions C05_cookie_authorization_bounded.
+
 (* The invariant behind it, preserved by every operation. *)
 Theorem C05_invariant_step : forall c s o, inv c s -> inv c (fst (step c s o)).
 Proof. exact inv_step. Qed.
@@ -90,3 +104,49 @@ Example C05_nonvacuous :
     OErr EInvalidRequest;
     OActive [PS "openid"] c1 Access ].
 Proof. vm_compute. reflexivity. Qed.
+
+(* non-vacuity, browser session: diana logs in at client_1 for openid+email+offline_access (code 0 stays pending); the
+   same browser then asks for openid only (new grant, code 1), for more (new grant, code 2: address is not allowed), and
+   sends the first request once more (grant 0 is kept, code 3).  What each code is exchanged for carries what ITS request
+   authorised. *)
+Definition cb := redirect_of c1.
+Definition demo_cookie : list op :=
+  [ Authorize (PS "diana") c1 [PS "openid"; PS "email"; PS "offline_access"];
+    AuthorizeCookie 0 (PS "diana") c1 [PS "openid"] cb false;
+    AuthorizeCookie 0 (PS "diana") c1 [PS "openid"; PS "email"; PS "offline_access"; PS "profile"; PS "address"] cb false;
+    AuthorizeCookie 0 (PS "diana") c1 [PS "openid"; PS "email"; PS "offline_access"] cb false;
+    TokenParse c1 (TRef 1) (Some cb); Process 0 None;
+    TokenParse c1 (TRef 2) (Some cb); Process 1 None;
+    TokenParse c1 (TRef 3) (Some cb); Process 2 None;
+    TokenParse c1 (TRef 0) (Some cb); Process 3 None ].
+Example C05_cookie_nonvacuous :
+  let '(s, outs) := run (mk_cfg true false) init demo_cookie in
+  length (grants s) = 3%nat /\
+  outs =
+  [ OAuthz 0 [PS "openid"; PS "email"; PS "offline_access"]; OAuthz 1 [PS "openid"];
+    OAuthz 2 [PS "openid"; PS "email"; PS "offline_access"; PS "profile"]; OAuthz 3 [PS "openid"; PS "email"; PS "offline_access"];
+    OOk; OTokens (Some 4%nat) None (Some 5%nat) [PS "openid"];
+    OOk; OTokens (Some 6%nat) (Some 7%nat) (Some 8%nat) [PS "openid"; PS "email"; PS "offline_access"; PS "profile"];
+    OOk; OTokens (Some 9%nat) (Some 10%nat) (Some 11%nat) [PS "openid"; PS "email"; PS "offline_access"];
+    OOk; OTokens (Some 12%nat) (Some 13%nat) (Some 14%nat) [PS "openid"; PS "email"; PS "offline_access"] ].
+Proof. vm_compute. split; reflexivity. Qed.
+
+(* Tie to the source: Gen/Src_scopes.v is the CURRENT idpyoidc.server.scopes.Scopes.get_allowed_scopes / filter_scopes,
+   translated by harness/py2v.py on every run.  inject_scopes pa cdb is a Scopes instance whose own allowed_scopes are
+   pa and whose upstream_get("attribute", "cdb") is the client database cdb (client id -> its allowed_scopes, if any). *)
+From Verif Require Lib.PyOps Gen.Src_scopes Proofs.Src_refine_scopes.
+Theorem C05_get_allowed_scopes_is_source : forall pa cdb cid clock,
+  Src_scopes.Scopes_get_allowed_scopes_src (Src_refine_scopes.inject_scopes pa cdb) (VStr cid) clock
+  = Ok (Src_refine_scopes.strs (match cid with
+                                | [] => pa
+                                | _ => match assoc cid cdb with Some (Some a) => a | _ => pa end
+                                end)).
+Proof. exact Src_refine_scopes.get_allowed_scopes_refines. Qed.
+Print Assumptions C05_get_allowed_scopes_is_source.
+(* for every configuration whose c_allowed is that answer, the model's filter_scopes is the source's filter_scopes *)
+Theorem C05_filter_scopes_is_source : forall c pa cdb sc cl clock,
+  (forall cl, c_allowed c cl = Src_refine_scopes.allowed_for pa cdb cl) ->
+  Src_scopes.Scopes_filter_scopes_src (Src_refine_scopes.inject_scopes pa cdb) (Src_refine_scopes.strs sc) (VStr cl) clock
+  = Ok (Src_refine_scopes.strs (filter_scopes c cl sc)).
+Proof. exact Src_refine_scopes.filter_scopes_refines. Qed.
+Print Assumptions C05_filter_scopes_is_source.
